@@ -514,6 +514,10 @@ impl Property for C20 {
             case.pieces.insert(at, Piece::gap(vec![b'\n']));
         }
         if noisy && rng.chance(1, 6) {
+            // (marked below: under the panic policy one piece of noise may be a broken word)
+            case.set("word_noise", 1);
+        }
+        if noisy && rng.chance(1, 6) {
             // the producer died inside a value
             while case.pieces.last().map_or(false, |p| p.kind == Kind::Gap) {
                 case.pieces.pop();
@@ -534,6 +538,15 @@ impl Property for C20 {
         case.opts = pipe.opts;
         let pol = *rng.pick(&[Policy::Ignore, Policy::Panic, Policy::Stderr, Policy::Stderr, Policy::Stdout]);
         case.opts.push(policy_opt(pol));
+        if pol == Policy::Panic && case.param("word_noise") == 1 {
+            if let Some(p) = case.pieces.iter_mut().find(|p| p.kind == Kind::Garbage) {
+                let t: &[u8] = *rng.pick(BROKEN_WORDS);
+                let mut g = vec![b'\n'];
+                g.extend_from_slice(t);
+                g.push(b'\n');
+                p.bytes.0 = g;
+            }
+        }
         let len = case.stream().len();
         match family {
             "invalid" => {
@@ -690,6 +703,19 @@ impl Property for C20 {
             ctx.stats.invalid = true;
             ctx.jawk_panic = None;
             return None;
+        }
+        // ... and under `panic` malformed input is a failure: without --take nothing can end
+        // the run before the first piece of noise
+        if pol == Policy::Panic
+            && g.outcome.is_ok()
+            && case.pieces.iter().any(|p| p.kind == Kind::Garbage)
+            && !has_opt(&case.opts, "--take")
+            && matches!(case.family.as_str(), "valid" | "read-fault" | "write-fault" | "transparent" | "preset" | "err-fault")
+        {
+            return viol(
+                "C20.exit-fail",
+                "--on-error=panic and malformed input, yet go returns Ok (the run must fail at the first malformed byte)".to_string(),
+            );
         }
         // noise is no failure: under a policy other than `panic`, a run whose clean stream
         // succeeds succeeds on the noisy stream too (the reference is the same configuration
